@@ -55,6 +55,7 @@ func harness_C10_spool() {
 	tgt := &scriptTarget{name: "tgt", partial: true, onlyStatusFaults: true, faultFree: verifParam("faults", 1) == 0}
 	w := &c01Wheel{}
 	q := c01Queue(dir, tgt, nil, 3, w)
+	firstWheel := q.wheel
 	d, err := q.Start(nil, mm, sender)
 	if err != nil {
 		verifStop()
@@ -69,22 +70,25 @@ func harness_C10_spool() {
 	if err := d.Commit(nil); err != nil {
 		verifStop()
 	}
-	// ---- no credential in the spool ----
-	if verifSymbolic() {
-		for name, f := range fsm.files {
-			if f.meta != nil && f.meta.MsgMeta != nil && f.meta.MsgMeta.Conn != nil {
-				if f.meta.MsgMeta.Conn.AuthPassword != "" || f.meta.MsgMeta.Conn.AuthUser != "" {
-					verifLog("file", name)
+	// ---- no credential in the spool (checked after acceptance and after every attempt) ----
+	scanSpool := func() {
+		if verifSymbolic() {
+			for name, f := range fsm.files {
+				if f.meta != nil && f.meta.MsgMeta != nil && f.meta.MsgMeta.Conn != nil {
+					if f.meta.MsgMeta.Conn.AuthPassword != "" || f.meta.MsgMeta.Conn.AuthUser != "" {
+						verifLog("file", name)
+						verifFail("C10.credentials-in-spool")
+					}
+				}
+				if bytes.Contains(f.data, []byte("secret-")) {
 					verifFail("C10.credentials-in-spool")
 				}
 			}
-			if bytes.Contains(f.data, []byte("secret-")) {
-				verifFail("C10.credentials-in-spool")
-			}
+		} else {
+			c10NativeScanSpool(dir)
 		}
-	} else {
-		c10NativeScanSpool(dir)
 	}
+	scanSpool()
 	// ---- attempts ----
 	attempts := 1
 	if nondetBool("retry") {
@@ -95,9 +99,20 @@ func harness_C10_spool() {
 		if nondetBool("restart") {
 			q = c01Queue(dir, tgt, nil, 3, &c01Wheel{})
 		}
-		meta, h2, b2, err := q.openMessage("msg1")
-		if err != nil {
-			verifFail("C10.spooled-message-unreadable")
+		// the first attempt in the accepting process works on the in-memory
+		// metadata of the scheduled slot, exactly as Queue.dispatch does
+		var meta *QueueMetadata
+		var h2 textproto.Header
+		var b2 buffer.Buffer
+		if slot := c10Slot(q, w); k == 1 && slot != nil && slot.Meta != nil && q.wheel == firstWheel {
+			meta, h2, b2 = slot.Meta, *slot.Hdr, slot.Body
+			verifCover("C10.first-attempt-from-memory")
+		} else {
+			var err error
+			meta, h2, b2, err = q.openMessage("msg1")
+			if err != nil {
+				verifFail("C10.spooled-message-unreadable")
+			}
 		}
 		before := len(tgt.deliveries)
 		q.tryDelivery(meta, h2, b2)
@@ -106,37 +121,38 @@ func harness_C10_spool() {
 		}
 		dl := tgt.deliveries[before]
 		if dl.closed != "start-failed" {
-		// envelope
-		if dl.from != sender {
-			verifFail("C10.sender-changed")
-		}
-		if len(dl.offered) != len(pending) {
-			verifFail("C10.pending-recipients-changed")
-		}
-		for _, r := range pending {
-			if !contains(dl.offered, r) {
+			// envelope
+			if dl.from != sender {
+				verifFail("C10.sender-changed")
+			}
+			if len(dl.offered) != len(pending) {
 				verifFail("C10.pending-recipients-changed")
 			}
-		}
-		if dl.meta.SMTPOpts.UTF8 != mm.SMTPOpts.UTF8 || dl.meta.SMTPOpts.RequireTLS != mm.SMTPOpts.RequireTLS || dl.meta.TLSRequireOverride != mm.TLSRequireOverride {
-			verifFail("C10.envelope-options-changed")
-		}
-		if dl.meta.OriginalRcpts["a@example.org"] != "orig@example.com" {
-			verifFail("C10.original-recipient-mapping-lost")
-		}
-		if dl.meta.OriginalFrom != sender {
-			verifFail("C10.original-sender-changed")
-		}
-		if dl.bodyDone {
-			if !bytes.Equal(c10HeaderBytes(dl.header), accepted) {
-				verifFail("C10.header-bytes-changed")
+			for _, r := range pending {
+				if !contains(dl.offered, r) {
+					verifFail("C10.pending-recipients-changed")
+				}
 			}
-			if !bytes.Equal(dl.body, body) {
-				verifFail("C10.body-bytes-changed")
+			if dl.meta.SMTPOpts.UTF8 != mm.SMTPOpts.UTF8 || dl.meta.SMTPOpts.RequireTLS != mm.SMTPOpts.RequireTLS || dl.meta.TLSRequireOverride != mm.TLSRequireOverride {
+				verifFail("C10.envelope-options-changed")
 			}
-			verifCover("C10.content-compared")
+			if dl.meta.OriginalRcpts["a@example.org"] != "orig@example.com" {
+				verifFail("C10.original-recipient-mapping-lost")
+			}
+			if dl.meta.OriginalFrom != sender {
+				verifFail("C10.original-sender-changed")
+			}
+			if dl.bodyDone {
+				if !bytes.Equal(c10HeaderBytes(dl.header), accepted) {
+					verifFail("C10.header-bytes-changed")
+				}
+				if !bytes.Equal(dl.body, body) {
+					verifFail("C10.body-bytes-changed")
+				}
+				verifCover("C10.content-compared")
+			}
 		}
-		}
+		scanSpool()
 		// next pending set: exactly the recipients whose own status in this
 		// attempt was a temporary or unclassified failure (computed from the
 		// scripted statuses, not read back from the spool)
@@ -160,4 +176,21 @@ func harness_C10_spool() {
 		pending = next
 	}
 	verifCover("C10.end")
+}
+
+// c10Slot returns the scheduled entry of msg1 (waiting in the wheel or already dispatched).
+func c10Slot(q *Queue, w *c01Wheel) *queueSlot {
+	for _, s := range w.dispatched {
+		if qs := s.Value.(queueSlot); qs.ID == "msg1" {
+			return &qs
+		}
+	}
+	q.wheel.slotsLock.Lock()
+	defer q.wheel.slotsLock.Unlock()
+	for e := q.wheel.slots.Front(); e != nil; e = e.Next() {
+		if qs := e.Value.(TimeSlot).Value.(queueSlot); qs.ID == "msg1" {
+			return &qs
+		}
+	}
+	return nil
 }
